@@ -58,6 +58,12 @@ def units_for(spec: Dict[str, Any]) -> List[tuple]:
         depth = 2 if n <= 4 else (3 if n <= 5 else 4)
         for (nn, prefix) in shards(n, depth):
             out.append(("E", nn, prefix))
+    if spec.get("E6_quarter"):
+        # a fixed quarter of E(6) (every 4th shard of the deterministic partition) - partial by construction, reported as such
+        sh = shards(6, 4)
+        for i, (nn, prefix) in enumerate(sh):
+            if i % 4 == 0:
+                out.append(("E", nn, prefix))
     if spec.get("FIG"):
         out.append(("L", "FIG", [g for _, g in fig_graphs(REPO)]))
     for label, graphs in (spec.get("LISTS") or {}).items():
@@ -125,6 +131,44 @@ def frontend_graphs(level: int) -> List[Graph]:
     return _D_CACHE[key]
 
 
+def _bc_unit(unit):
+    import importlib
+    from numba_scfg.core.datastructures.byte_flow import ByteFlow
+    from .bytecode_ref import in_domain
+    from .props.c09 import code_objects
+    kind, payload = unit
+    label = "BC(S)" if kind == "src" else "BC(corpus)"
+    codes = []
+    if kind == "src":
+        for _, src in payload:
+            ns: Dict[str, Any] = {}
+            exec(compile(src, "<bc>", "exec"), ns)
+            codes.append(ns["f"].__code__)
+    else:
+        try:
+            mod = importlib.import_module(payload)
+            codes = [c for _, c in code_objects(mod)]
+        except BaseException:  # noqa: BLE001
+            codes = []
+    out, seen = [], set()
+    for code in codes:
+        if in_domain(code) is not None:
+            continue
+        try:
+            scfg = ByteFlow.from_bytecode(code).scfg
+        except Exception:  # noqa: BLE001  (C09's business)
+            continue
+        g = {n: tuple(b._jump_targets) for n, b in scfg.graph.items()}
+        if any(t not in g for r in g.values() for t in r):
+            continue
+        c = canonical(g)
+        if c is None or c in seen or not is_closed(c):
+            continue
+        seen.add(c)
+        out.append(c)
+    return label, out
+
+
 def bytecode_graphs(tier: str) -> Dict[str, List[Graph]]:
     """Closed CFGs that the BYTECODE front end produces: for the skeleton programs and for the stdlib corpus."""
     key = f"BC{tier}"
@@ -136,34 +180,15 @@ def bytecode_graphs(tier: str) -> Dict[str, List[Graph]]:
     from .progs import skeleton_sources
     from .props.c09 import CORPUS_QUICK, CORPUS_THOROUGH, code_objects
     out: Dict[str, List[Graph]] = {"BC(S)": [], "BC(corpus)": []}
-    seen = set()
-
-    def add(code, label):
-        if in_domain(code) is not None:
-            return
-        try:
-            scfg = ByteFlow.from_bytecode(code).scfg
-        except Exception:  # noqa: BLE001  (C09's business)
-            return
-        g = {n: tuple(b._jump_targets) for n, b in scfg.graph.items()}
-        if any(t not in g for r in g.values() for t in r):
-            return
-        c = canonical(g)
-        if c is None or c in seen or not is_closed(c):
-            return
-        seen.add(c)
-        out[label].append(c)
-    for label, src in skeleton_sources(2 if tier == "quick" else 3, "marked", loop_else_upto=2):
-        ns: Dict[str, Any] = {}
-        exec(compile(src, "<bc>", "exec"), ns)
-        add(ns["f"].__code__, "BC(S)")
-    for modname in (CORPUS_QUICK if tier == "quick" else sorted(set(CORPUS_THOROUGH))):
-        try:
-            mod = importlib.import_module(modname)
-        except BaseException:  # noqa: BLE001
-            continue
-        for _, code in code_objects(mod):
-            add(code, "BC(corpus)")
+    progs = list(skeleton_sources(2 if tier == "quick" else 3, "marked", loop_else_upto=2))
+    units = [("src", progs[i:i + 1500]) for i in range(0, len(progs), 1500)]
+    units += [("mod", m) for m in (CORPUS_QUICK if tier == "quick" else sorted(set(CORPUS_THOROUGH)))]
+    seen = {"BC(S)": set(), "BC(corpus)": set()}
+    for label, graphs in shard_map(_bc_unit, units):
+        for c in graphs:
+            if c not in seen[label]:
+                seen[label].add(c)
+                out[label].append(c)
     _D_CACHE[key] = out  # type: ignore
     return out
 
@@ -197,4 +222,5 @@ def graph_spec(tier: str, light: bool = False) -> Dict[str, Any]:
             lists.update(bytecode_graphs(tier))
     except ImportError:
         pass
-    return {"E": (5 if tier == "quick" else 6) - (1 if light and tier != "quick" else 0), "FIG": True, "LISTS": lists}
+    return {"E": (5 if tier == "quick" else 6) - (1 if light and tier != "quick" else 0), "FIG": True, "LISTS": lists,
+            "E6_quarter": tier == "quick" and not light}
